@@ -1,4 +1,5 @@
 """C04 — generated text maps into the source span of the construct that generated it."""
+import re, random
 import t2t, corr, semrun, sem, cref
 
 OBLIGATIONS = ['Yalafi.C04_latexError_anchor', 'Yalafi.C04_restamp', 'Yalafi.C04_genRepl_anchor',
@@ -78,6 +79,42 @@ def judge(case, res):
                 break
     return fails
 
+def end_cases(rng):
+    macs, envs = t2t.signatures()
+    out = []
+    def arg(kind, opt=None):
+        w = 'Q' + ''.join(rng.choice('abcdefghijklmnopqrstuvwxyz') for _ in range(3))
+        return {'A': '{%s}' % w, 'O': '[%s]' % w if opt else '', '*': rng.choice(['', '*'])}.get(kind, '')
+    for lang in ('en', 'de', 'ru'):
+        for nm, args in macs:
+            if not nm.startswith('\\') or not nm[1:].isalpha():
+                continue
+            for opt in ((False, True) if 'O' in args else (False,)):
+                body = nm + ''.join(arg(a, opt) for a in args)
+                for tail in ('', ' Qpost'):
+                    out.append({'src': 'Qpre ' + body + tail, 'opts': {'pack': '*', 'lang': lang}, 'multi': False, 'kind': 'end', 'span': (5, 5 + len(body))})
+        for nm, args in envs:
+            for opt in ((False, True) if 'O' in args else (False,)):
+                body = '\\begin{%s}' % nm + ''.join(arg(a, opt) for a in args)
+                for tail in ('', ' Qin\\end{%s}' % nm, '\nQpost'):
+                    b2 = body + tail if tail.startswith(' Qin') else body
+                    out.append({'src': 'Qpre ' + body + tail, 'opts': {'pack': '*', 'lang': lang}, 'multi': False, 'kind': 'end', 'span': (5, 5 + len(b2))})
+    return out
+def judge_end(c, r):
+    if r['outcome'] != 'ok' or r['stderr']:
+        return []
+    txt, pos = r['txt'], r['pos']
+    a, b = c['span']
+    copied = set()
+    for m in semrun.WORD.finditer(txt):
+        copied.update(range(m.start(), m.end()))
+    for i, (ch, p) in enumerate(zip(txt, pos)):
+        if ch.isspace() or i in copied:
+            continue
+        if not (a < p <= b):
+            return ['generated character %r of %r maps to offset %d, outside the construct at %d..%d (text %r, positions %r)' % (ch, c['src'], p, a + 1, b, txt, pos)]
+    return []
+
 def run(ctx):
     n = ctx.scale(900, 25000)
     rng = ctx.rng
@@ -130,9 +167,21 @@ def run(ctx):
             ctx.violation(fails[0], src=c['src'], opts=c['opts'], all=fails[:3], case=c)
         if len(ctx.samples) < 3 and c['callspans']:
             ctx.sample({'src': c['src'][:300], 'uses': c['callspans'][:5]})
+    # every declared macro / environment by signature as the last thing of the text and followed by text, en/de/ru:
+    # whatever it generates maps into its own span
+    ecs = end_cases(rng)
+    eres = ctx.pmap(t2t.run_case, ecs)
+    for c, r in zip(ecs, eres):
+        ctx.case(c['src']); ctx.count('construct_at_end')
+        f = judge_end(c, r)
+        if f:
+            ctx.violation(f[0], src=c['src'], opts=c['opts'], end_span=list(c['span']))
     corr.t2t(ctx, cases, results, proj=('outcome', 'toks'), limit=ctx.scale(900, 20000))
 
 def judge_witness(w):
+    if w.get('end_span'):
+        c = {'src': w['src'], 'opts': w.get('opts') or {}, 'multi': False, 'span': tuple(w['end_span'])}
+        return judge_end(c, t2t.run_case(c))
     if 'body_word' not in w:
         return []
     c = {'src': w['src'], 'opts': w.get('opts') or {}, 'multi': False, 'files': w.get('files')}
@@ -149,6 +198,10 @@ def judge_witness(w):
 def replay(data):
     v = data['violation']
     c = v.get('case')
+    if v.get('end_span'):
+        f = judge_witness(v)
+        print('\n'.join(f) if f else 'ok')
+        return not f
     if not c:
         print('no stored case; violation was:', v.get('what'))
         return True
